@@ -157,6 +157,9 @@ def run(ctx):
     # the same rows in another order (an entry is a positional list of result rows), and the same rows with a longer `columns` list
     X2, X3 = [X[2], X[0], X[3], X[1]], [X[1], X[2], X[3], X[0]]
     wide = dict(ann2, cols=["note", "id"])
+    # two batches whose reaction strings CONCATENATE to the same text (a key built without delimiters cannot tell them apart)
+    KA, KB = ["CC(=O)OCC>>CC(=O)O", "CCO>>CC=O"], ["CC(=O)OCC>>CC(=O)OC", "CO>>CC=O"]
+    fixed += [[(F(0), KA), (F(0), KB), (F(0), KA)], [(F(0, bs=2), KA + ["C>>C"]), (F(0, bs=2), KB + ["C>>C"])]]
     fixed += [[(F(0), X), (F(0), X2), (F(0), X3), (F(0), X)], [(F(0, bs=2), X), (F(0, bs=2), X2)],
               [(ann2, X), (wide, X), (ann2, X)], [(wide, X), (ann2, X), (wide, X2)]]
     for fi, fh in enumerate(fixed + fixed):
